@@ -265,3 +265,83 @@ Definition banded_dot_banded (a0 n1a b0 n1b c0 n1c a_lower a_upper b_lower b_upp
         rd2 A_a row_a a0 frame n1a ;;;
         rd2 A_b row_b b0 (frame - o_b) n1b ;;;
         wr2 A_c row_c c0 (frame - o_b) n1c))).
+
+(* ------------------------------------------------------------------ spline._quadratic_bezier_spline *)
+(* np.argmin over n elements: any value in [0, n) -- chosen by the oracle in unary (k times true, then
+   false unless k = n - 1); the harness encodes the value NumPy returned in the same way *)
+Fixpoint choose_n (fuel : nat) (k n : Z) : M Z :=
+  match fuel with
+  | O => ret k
+  | S f => if k <? n - 1 then (b <- ask ;; if b then choose_n f (k + 1) n else ret k) else ret k
+  end.
+Definition choose (n : Z) : M Z := choose_n (Z.to_nat n) 0 n.
+
+(* right_idx = center_idx + np.argmin(np.abs(x[center_idx:next_idx + 1] - 0.5 * (center_x + x[next_idx])));
+   None = np.argmin raised ValueError (empty slice): the kernel ends with a Python exception *)
+Definition bz_right (nx c n : Z) : M (option Z) :=
+  rds A_x (oS c) (oS (n + 1)) nx ;;; rd A_x n nx ;;;
+  let L := sl_len nx (oS c) (oS (n + 1)) in
+  if L <=? 0 then ret None else (r <- choose L ;; ret (Some (c + r))).
+
+(* indices: contents of the index array; the loop `for i, center_idx in enumerate(indices[2:-2], 2)` reads
+   element k of the slice at the start of iteration k *)
+Definition bezier (nx ny : Z) (indices : list Z) : M unit :=
+  let ni := lenz indices in
+  let ix k := nthz indices k 0 in
+  if negb (nx =? ny) then ret tt
+  else if ni <? 2 then ret tt
+  else if ni <? 4 then
+    rd A_indices 0 ni ;;; rdn A_indices (-1) ni ;;;
+    let li := ix 0 in let ri := ix (ni - 1) in
+    rd A_x li nx ;;; rd A_x ri nx ;;; rd A_y li ny ;;; rd A_y ri ny ;;;
+    (if ni =? 2 then ret tt else rd A_indices 1 ni ;;; rd A_y (ix 1) ny)
+  else
+    rd A_indices 1 ni ;;; rd A_indices 2 ni ;;;
+    let c := ix 1 in let n := ix 2 in
+    rd A_indices 0 ni ;;; rd A_x (ix 0) nx ;;;
+    rd A_x c nx ;;;
+    ro <- bz_right nx c n ;;
+    match ro with
+    | None => ret tt
+    | Some r0 =>
+      rd A_x r0 nx ;;;
+      rd A_indices 0 ni ;;; rd A_y (ix 0) ny ;;;
+      rd A_y c ny ;;; rd A_y n ny ;;; rd A_x n nx ;;;
+      rds A_x None (oS (n + 1)) nx ;;; wrs A_output None (oS (n + 1)) nx ;;;
+      fit (sl_len nx None (oS (n + 1))) (sl_len nx None (oS (n + 1))) ;;;
+      let m := sl_len ni (oS 2) (oS (-2)) in
+      rds A_indices (oS 2) (oS (-2)) ni ;;;
+      st <- for_range 0 m (fun k (st : option Z) =>
+              match st with
+              | None => ret None
+              | Some left_idx =>
+                rd A_indices k m ;;;
+                let c := ix (k + 2) in
+                rd A_indices (k + 3) ni ;;;
+                let n := ix (k + 3) in
+                rd A_x c nx ;;;
+                ro <- bz_right nx c n ;;
+                match ro with
+                | None => ret None
+                | Some r =>
+                  rd A_x r nx ;;;
+                  z <- ask ;;
+                  if z then ret (Some r)
+                  else
+                    rd A_y c ny ;;; rd A_y n ny ;;; rd A_x n nx ;;;
+                    rds A_x (oS left_idx) (oS (r + 1)) nx ;;;
+                    wrs A_output (oS left_idx) (oS (r + 1)) nx ;;;
+                    fit (sl_len nx (oS left_idx) (oS (r + 1))) (sl_len nx (oS left_idx) (oS (r + 1))) ;;;
+                    ret (Some r)
+                end
+              end) (Some r0) ;;
+      match st with
+      | None => ret tt
+      | Some r =>
+        rdn A_indices (-2) ni ;;; rd A_y (ix (ni - 2)) ny ;;;
+        rdn A_indices (-1) ni ;;; rd A_y (ix (ni - 1)) ny ;;;
+        rds A_x (oS r) None nx ;;; rdn A_indices (-1) ni ;;; rd A_x (ix (ni - 1)) nx ;;;
+        wrs A_output (oS r) None nx ;;;
+        fit (sl_len nx (oS r) None) (sl_len nx (oS r) None)
+      end
+    end.
